@@ -43,12 +43,13 @@ func Unpack(buf []byte, dotu bool) (fc *Fcall, fcsz int, err error) {
 
 	var sz uint32
 	if dotu {
-		sz = minFcsize[fc.Type-Tversion]
-	} else {
 		sz = minFcusize[fc.Type-Tversion]
+	} else {
+		sz = minFcsize[fc.Type-Tversion]
 	}
 
-	if fc.Size < sz {
+	/* the tables hold the minimum size of the message body */
+	if fc.Size < sz+7 {
 		goto szerror
 	}
 
